@@ -113,4 +113,19 @@ theorem ascii_key_reports_parse_back :
       | some s => (s == .c0 27) || parsesBack s) = true := by
   decide +kernel
 
+/-- **special_key_pipeline.** The whole path in the model, at byte level, for the table-driven part of the
+    encoder: for every special key × 8 Shift/Alt/Ctrl sets × all four (keypad, cursor-key) mode combinations the
+    xterm legacy protocol expresses, the bytes `encodeXterm` writes are parsed by the parser model (ground state)
+    into exactly one sequence, and `decodeKey` of that sequence matches the original key and modifiers. -/
+theorem special_key_pipeline :
+    (specialKeysD.all fun kc => (List.range 8).all fun m => allModes.all fun md =>
+      match xtermLegacy kc m 0 md.2 with
+      | none => true
+      | some s =>
+        let k : Key := { keycode := kc, mods := m }
+        (s == .c0 27) ||
+        ((prun pinit (natsOf (encodeXterm asciiUni k md.1 md.2))).2 == itemsOf s &&
+         decide (keyArrives asciiUni k (decodeKey asciiUni s)))) = true := by
+  decide +kernel
+
 end VaxisModel.Props.C13Parse
